@@ -179,6 +179,73 @@ def check(ctx: Ctx, ev: Evidence) -> list[Finding]:
                             if not ok:
                                 out.append(Finding("C15-R4", "dest handler | Transaction-Finished vs Finished PDU | status differs",
                                                    "the Finished PDU built after the Transaction-Finished indication carries a different condition/delivery/file status", x.site, witness_of(a, e)))
+    out += originating_id_table(ctx, ev)
     ev.extra["explanation"] = "every indication event, EOF acceptance, File Data write, EOF emission and busy->idle edge of both handlers' abstract transition systems, with the four indication switches free per call (2^4 settings covered path-wise)"
-    ev.assume("the originating-transaction-id decision (reserved CFDP messages) is not decided: it depends on library predicates over message contents")
+    ev.assume("reserved-message predicates of spacepackets (is_originating_transaction_id, is_cfdp_proxy_operation, ...) are uninterpreted booleans per message")
+    return out
+
+
+def originating_id_table(ctx: Ctx, ev: Evidence) -> list[Finding]:
+    """R5: decision table of the originating-transaction-id helper over message lists of up to 3 messages,
+    every message with free (reserved?, originating id?, proxy operation?, put response?) predicates:
+    the id surfaces iff some message carries one and NO message is a proxy put response."""
+    import ast as _ast
+    import re as _re
+    from .. import interp as _interp
+    from ..ats import Harness
+    from ..model import AnalysisError as _AE
+    ev.rule("C15-R5", "originating transaction id is surfaced unless a proxy put response is present (decision table over message lists)", 8)
+    prog = ctx.prog
+    SRC = "cfdppy.handler.source.SourceHandler"
+    cands = [f for f in prog.functions.values() if f.cls == SRC and any(isinstance(n, _ast.Attribute) and n.attr == "is_originating_transaction_id" for n in _ast.walk(f.node))]
+    if len(cands) != 1:
+        raise _AE(f"originating-id helper not found ({len(cands)} candidates)")
+    fi = cands[0]
+    h = Harness(prog, "source", k_iter=3)
+    rets, _ = h.run(h.node0, ("put_request", "file"))
+    out: list[Finding] = []
+    old = _interp.NO_MERGE
+    _interp.NO_MERGE = True
+    try:
+        seen: set[str] = set()
+        for _, st in rets[:1]:
+            ex: list = []
+            res = h.ip.call_repo(fi, h.self_ref, [], {}, st, ex, "<focused>")
+            for val, s2 in res:
+                per: dict[int, dict[str, bool]] = {}
+                for k, v in s2.ch.items():
+                    r = repr(k)
+                    m = _re.search(r"\[#(\d+)\]", r)
+                    if not m:
+                        continue
+                    i = int(m.group(1))
+                    d = per.setdefault(i, {})
+                    if "is_reserved_cfdp_message" in r:
+                        d["reserved"] = bool(v)
+                    elif "is_originating_transaction_id" in r:
+                        d["orig"] = bool(v)
+                    elif "is_cfdp_proxy_operation" in r:
+                        d["proxy"] = bool(v)
+                    elif "get_cfdp_proxy_message_type" in r:
+                        d["putresp"] = bool(v)
+                n_msgs = s2.mon.get("iter:" + "iter<req.msgs_to_user>", None)
+                has_resp = any(d.get("reserved") and d.get("proxy") and d.get("putresp") for d in per.values())
+                ids = sorted(i for i, d in per.items() if d.get("reserved") and d.get("orig"))
+                got = None
+                if val is not None:
+                    m = _re.search(r"\[#(\d+)\]", repr(val))
+                    got = int(m.group(1)) if m else -1
+                want = None if has_resp or not ids else ids[-1]
+                ok = (got == want) or (want is not None and got in ids and not has_resp)
+                desc = "; ".join(f"msg{i}:" + ",".join(k for k, b in sorted(d.items()) if b) for i, d in sorted(per.items())) or "no reserved message"
+                k2 = f"messages [{desc}] -> id of msg {got}" if got is not None else f"messages [{desc}] -> None"
+                if k2 in seen:
+                    continue
+                seen.add(k2)
+                ev.inst("C15-R5", k2, "ok" if ok else "violation", fi.file)
+                if not ok:
+                    out.append(Finding("C15-R5", f"source handler | originating id | put response present={has_resp}, ids at {ids} -> {got}",
+                                       f"originating-id decision is wrong for the message list [{desc}]: returns the id of message {got}, specified {'None' if want is None else 'message ' + str(want)}", fi.file))
+    finally:
+        _interp.NO_MERGE = old
     return out
